@@ -85,6 +85,7 @@ static thrd_ret_t THREAD_CALL_CONV parallel_thread_run(void *rid_arg)
 	}
 
 	worker_thread_fini();
+	VERIF_TRACE(VT_STAGE, 9, 0, 0, 0);
 
 	return THREAD_RET_SUCCESS;
 }
